@@ -110,10 +110,12 @@ def run(ctx):
     for i in ctx.cases(n):
         rng = ctx.rng(i)
         pb = session.make_problem(rng, N=int(rng.choice([20, 80])), profile=str(rng.choice(["moderate", "flat"])))
-        # keep dt/P moderate: periods not shorter than baseline / 1e4
+        # keep the base problem well determined (an ill-determined row makes accepted sets incomparable): periods not
+        # shorter than baseline / 300, eccentricities <= 0.6
         span = max(np.ptp(pb.lin.t), 1.0)
-        if np.min(pb.tagP) < span / 1e4:
-            pb.rows["P"] = np.maximum(pb.rows["P"], span / 1e4 * (1 + np.arange(pb.N) * 1e-6))
+        pb.rows["e"] = np.minimum(np.asarray(pb.rows["e"]), 0.6)
+        if True:
+            pb.rows["P"] = np.maximum(pb.rows["P"], span / 300 * (1 + np.arange(pb.N) * 1e-6))
             o = np.argsort(pb.rows["P"], kind="stable")
             for k in pb.rows:
                 pb.rows[k] = np.asarray(pb.rows[k])[o]
@@ -165,7 +167,10 @@ def run(ctx):
                 ll_t = np.asarray(jt.marginal_ln_likelihood(data2, lib2, in_memory=in_memory), dtype=float)
                 n_ep = len(pb.lin.t)
                 want = ll_b - n_ep * np.log(f_data)
-                tol = 1e-8 * (1 + np.abs(ll_b)) + 2 * tol_k
+                # unit conversion changes the inputs by an ulp: the kernel tolerance is inflated by the sensitivity of the
+                # Kepler column to the phase, |M| / (1-e)^2 (same allowance as C01's alternative-unit comparison)
+                Mmax = 2 * np.pi * np.max(np.abs(pb.lin.t - pb.lin.t_ref)) / pb.tagP + 10
+                tol = 1e-8 * (1 + np.abs(ll_b)) + 2 * tol_k * (1 + 0.05 * Mmax / (1 - np.asarray(pb.rows["e"])) ** 2)
                 ok = tol < 1e-4
                 ctx.evaluations += int(np.sum(ok))
                 ctx.count("rows_too_illconditioned", int(np.sum(~ok)))
